@@ -238,7 +238,8 @@ def r2_who(ctx):
     for q in xquotes(fn_gen.body, also_plain=False) if fn_gen else []:
         tt = flat(tok_text(q["tokens"]))
         m_ = re.match(r"^pub(?:const|async)?fn#accessor_ident\(\)->&'static\[(?:&'staticstr|Box<str>);#strings_count\]\{(.*)\}$", tt)
-        if m_ and m_.group(1) not in {"#string_holder::get_translations()", "#string_holder::get_translations().await", "super::super::#parent::#accessor_ident()", "super::super::#parent::#accessor_ident().await"}:
+        if m_ and m_.group(1) not in {"#string_holder::get_translations()", "#string_holder::get_translations().await", "super::super::#parent::#accessor_ident()", "super::super::#parent::#accessor_ident().await"} \
+                and not re.match(r"^#\w+(\.await)?$", m_.group(1)):          # (a body spliced in as one expression is what the evaluation above reads)
             r.viol("R2:template#accessor-body", "a generated table accessor does more than forward to its own unit's get_translations(): `%s` - a cache makes the unit register once per process, a call to "
                    "another unit registers units the request did not use" % m_.group(1)[:200], file=ML, line=fn_gen.line)
             break
